@@ -281,6 +281,20 @@ fn c11_enforce<K: Kit>(spec: &Spec, rep: &mut Report) {
                 if !(d12 <= 1e-9 || same_bits) || (!ev.all_finite() && v.all_finite()) {
                     viol(rep, "C11", &format!("{kit}|enforce-not-idempotent|{cls}"), format!("enforcing twice moves the state by {d12}"), det(json!({"enforced": ev.json(), "twice": K::to_v(&e2).json()})));
                 }
+                // the bounds operations are functions of the state: a space object that has projected other states
+                // before answers exactly as a fresh one
+                {
+                    let fresh = K::build(spec);
+                    let mut ef = s0.clone();
+                    let same = guarded(|| {
+                        fresh.enforce_bounds(&mut ef);
+                        (K::bits(&ef) == K::bits(&e) || (!K::to_v(&ef).all_finite() && !ev.all_finite())) && fresh.satisfies_bounds(&s0) == was_sat
+                    });
+                    rep.count("fresh_space_variants", 1);
+                    if !matches!(same, Ok(true)) {
+                        viol(rep, "C11", &format!("{kit}|result-depends-on-call-history|{cls}"), "a space object that served other states before enforces / checks this state differently from a fresh one".into(), det(json!({"enforced": ev.json()})));
+                    }
+                }
                 if let Err(why) = canonical_after_enforce(spec, &ev) {
                     viol(rep, "C11", &format!("{kit}|enforce-not-canonical|{cls}"), format!("enforced state is not canonical: {why}"), det(json!({"enforced": ev.json()})));
                 }
